@@ -277,7 +277,9 @@ fn evaluates(focus: F2, f: &L2Finding, d: &FnDesc, mem_evicted: bool) -> bool {
         // any divergence from the model configured with the written attribute values means an
         // attribute did not take effect as written (registry counts depend on process history
         // only in a non-forked run; cases are forked)
-        F2::C19 => c != "panic",
+        // (victim order under TLRU with a ttl is judged only by C08, whose histories use
+        // whole-second steps: the async cache measures lifetimes in whole seconds)
+        F2::C19 => c != "panic" && !(c == "order" && d.effective_policy() == Policy::Tlru && d.ttl.is_some()),
     }
 }
 
@@ -683,7 +685,7 @@ fn c14_candidates() -> &'static Vec<u32> {
         static_corpus()
             .funcs
             .iter()
-            .filter(|d| simple_sig(d) && !d.is_result() && !d.cache_if && !d.invalidate_on && matches!(d.family, "grid" | "tlru") && d.max_memory.is_none())
+            .filter(|d| simple_sig(d) && !d.is_result() && !d.cache_if && !d.invalidate_on && matches!(d.family, "grid" | "tlru" | "thrtag") && d.max_memory.is_none())
             .map(|d| d.id)
             .collect()
     })
